@@ -25,12 +25,13 @@ from . import modes as M
 from . import replay
 from .c09 import write_cfg
 
-KINDS = ["grp", "assoc", "extract", "dup", "never", "notnever"]
+KINDS = ["grp", "assoc", "extract", "dup", "never", "notnever", "dup0", "never0", "notnever0"]
 _pest = None
 
 
 def _init():
     global _pest  # noqa: PLW0603
+    C.die_with_parent()
     _pest = C.import_pest()
 
 
@@ -47,7 +48,7 @@ def neutral_part(rep, thorough):
         cfg = write_cfg(f"Rewrites_{fam}", "Spec", {"Mode": '"neutral"', "Family": f'"{fam}"', "MaxLen": maxlen, "Sample": 0}, invariants=["RewriteNeutral"])
         st = C.run_tlc("Rewrites", cfg, workers=8 if not thorough else 14, env={"FAMILY_FILE": str(f)}, tag=f"Rewrites_{fam}", xss="512m", timeout=3000)
         C.require_tlc_ok(st, f"Rewrites neutral {fam}")
-        rep.add_tlc(st, f"Rewrites[neutral {fam} x{len(gs)} MaxLen={maxlen}]: RewriteNeutral at every site x 6 kinds x all inputs")
+        rep.add_tlc(st, f"Rewrites[neutral {fam} x{len(gs)} MaxLen={maxlen}]: RewriteNeutral at every site x 9 kind spellings x all inputs")
         f.unlink()
 
 
